@@ -1,0 +1,74 @@
+//go:build verif
+
+package io
+
+// Verification hooks (build tag "verif"): see /verif/DESIGN.md section 4.1.
+// A hook is looked up in the stream context first (key "verifHook", so that
+// concurrent streams can be observed independently) then in the package variable.
+
+// VerifHookFunc receives the hook point, the block id, two scalars and a view of the
+// block data at that point (never retained by the callee).
+type VerifHookFunc func(point int, id int32, a, b int64, buf []byte)
+
+// VerifHook is the package level hook used when the context does not provide one.
+var VerifHook VerifHookFunc
+
+// Hook points
+const (
+	VH_E_START = iota + 1
+	VH_E_LOCAL
+	VH_E_WAIT
+	VH_E_SEEN
+	VH_E_EMIT0
+	VH_E_EMIT1
+	VH_E_FIN0
+	VH_E_FIN1
+	VH_W_JOIN
+	VH_D_WAIT
+	VH_D_SEEN
+	VH_D_READ0
+	VH_D_READ1
+	VH_D_PUB
+	VH_D_SKIP
+	VH_D_DEC
+	VH_D_FIN0
+	VH_D_FIN1
+	VH_R_JOIN
+	VH_W_SPAWN
+	VH_R_SPAWN
+)
+
+func verifHook(ctx map[string]any, point int, id int32, a, b int64, buf []byte) {
+	if ctx != nil {
+		if h, ok := ctx["verifHook"]; ok {
+			if f, ok := h.(VerifHookFunc); ok && f != nil {
+				f(point, id, a, b, buf)
+				return
+			}
+		}
+	}
+
+	if h := VerifHook; h != nil {
+		h(point, id, a, b, buf)
+	}
+}
+
+func verifErr(err *IOError) int64 {
+	if err == nil {
+		return 0
+	}
+
+	return int64(err.code)
+}
+
+func verifClip(buf []byte, n int) []byte {
+	if n < 0 {
+		n = 0
+	}
+
+	if n > len(buf) {
+		n = len(buf)
+	}
+
+	return buf[0:n]
+}
